@@ -5,7 +5,7 @@ from .. import families
 
 def run(tier):
     return famcheck.run(
-        "C07", tier, [("c07", families.c07(tier))],
+        "C07", tier, [("c07", families.c07(tier)), ("mixed", families.mixed(tier, 1500 if tier == "thorough" else 100, salt=7, operands=True))],
         "every operand spelling of my own table of the Hexagon operand syntax (written from QEMU's hex_common.py, not from "
         "grammar.lark): class {R,P,C,M,N} x access letter {s,t,u,v,w,d,e,x,y,z} x single/pair x V/N; explicit Rn/Pn/Cn/Mn/Gn/Sn "
         "and pairs, with and without _NEW; 21 alias names with and without _NEW; the 8 immediate letters; 8 load and 8 store forms; "
